@@ -333,9 +333,21 @@ func r113(c *Ctx) {
 					nCond++
 				}
 			}
-			c.ob(rule, "RestoreLastSavedState/installs-every-decoded-service", cs.pos(), okAll && li.holds(cs.instr, lock, modeW) && nCond == 0, true, "every element of the decoded list must be Set, unconditionally, under the write lock")
+			// (a table built privately and published afterwards: the Sets need no lock, the publication does)
+			private := !li.holds(cs.instr, lock, modeW) && freshUnpublishedAt(c.World, cs.common().Args[0], cs.instr)
+			c.ob(rule, "RestoreLastSavedState/installs-every-decoded-service", cs.pos(), okAll && (li.holds(cs.instr, lock, modeW) || private) && nCond == 0, true, "every element of the decoded list must be Set, unconditionally, under the write lock")
 			// into a fresh map assigned before
 			fresh := false
+			if private {
+				recv := resolve(cs.common().Args[0])
+				for _, w := range c.writesOfField(c.field("Router", "services")) {
+					if outer(w.fn) == fn && resolve(w.val) == recv && li.holds(w.instr, lock, modeW) && len(dominatingCondsOtherThanLoop(w.instr)) == 0 {
+						if call, ok := recv.(*ssa.Call); ok && isCallTo(call.Common(), c.fn("NewServiceMap")) {
+							fresh = true
+						}
+					}
+				}
+			}
 			for _, w := range c.writesOfField(c.field("Router", "services")) {
 				if w.fn == cl {
 					if call, ok := w.val.(*ssa.Call); ok && isCallTo(call.Common(), c.fn("NewServiceMap")) && dominates(w.instr, cs.instr) || dominatesLoop(w.instr, cs.instr) {
